@@ -34,7 +34,7 @@ def emit_polygons(ctx, G, maxv, relabel=True, simulate=None, depth=None, balls=F
     res = tlc.run("Polygon2", CFG_EMIT,
                   constants={"G": G, "MaxV": maxv, "Relabel": "TRUE" if relabel else "FALSE", "EmitOn": "TRUE",
                              "WithBalls": "TRUE" if balls else "FALSE", "WithRadial": "TRUE" if radial else "FALSE",
-                             "WithFF": "TRUE" if ff else "FALSE"},
+                             "WithFF": "TRUE" if ff else "FALSE", "Seeds": "{}"},
                   timeout=1500, simulate=simulate, depth=depth)
     ctx.tlc(res, f"Polygon2 emission G={G} MaxV={maxv} relabel={relabel}" + (f" simulate={simulate}" if simulate else ""))
     seen = {}
@@ -47,7 +47,7 @@ def emit_polygons(ctx, G, maxv, relabel=True, simulate=None, depth=None, balls=F
 
 def t1(ctx, G, maxv):
     res = tlc.run("Polygon2", CFG_T1,
-                  constants={"G": G, "MaxV": maxv, "Relabel": "FALSE", "EmitOn": "FALSE", "WithBalls": "FALSE", "WithRadial": "FALSE", "WithFF": "FALSE"}, timeout=1500)
+                  constants={"G": G, "MaxV": maxv, "Relabel": "FALSE", "EmitOn": "FALSE", "WithBalls": "FALSE", "WithRadial": "FALSE", "WithFF": "FALSE", "Seeds": "{}"}, timeout=1500)
     ctx.tlc(res, f"Polygon2 T1 (layer A = layer D) G={G} MaxV={maxv}")
     if res.violated:
         ctx.violation({"cls": "spec", "obs": res.violated, "tags": ["T1"],
